@@ -278,6 +278,13 @@ func (s *Service) start(
 		return err
 	}
 
+	// Stop resolves the published run and does not wait for a Start in
+	// progress, so from here until the new run is published below a force stop
+	// can only reach the run this Start supersedes (e.g. the dead one a recovery
+	// restart is replacing). Remember whether it had been force stopped already.
+	oldRp, hadOldRp := s.runningPipelines.Get(pipelineID)
+	forceStoppedBefore := hadOldRp && oldRp.forceStopped.Load()
+
 	verifhook.Point("lifecycle.start.checked")
 	s.logger.Debug(ctx).Str(log.PipelineIDField, pl.ID).Msg("starting pipeline")
 	s.logger.Trace(ctx).Str(log.PipelineIDField, pl.ID).Msg("building nodes")
@@ -288,7 +295,7 @@ func (s *Service) start(
 	}
 
 	// We check if the pipeline was previously running and get the backoff configuration from it.
-	if oldRp, ok := s.runningPipelines.Get(pipelineID); ok {
+	if hadOldRp {
 		rp.backoff = oldRp.backoff
 		rp.recoveryAttempts = oldRp.recoveryAttempts
 	}
@@ -305,6 +312,14 @@ func (s *Service) start(
 	// fact.
 	if err := s.runPipeline(ctx, rp); err != nil {
 		return cerrors.Errorf("failed to run pipeline %s: %w", pl.ID, err)
+	}
+	if hadOldRp && !forceStoppedBefore && oldRp.forceStopped.Load() {
+		// A force stop was accepted while this run was being built and marked
+		// the superseded run: the caller was told the pipeline is being force
+		// stopped, so the run that just went live must not survive it.
+		s.logger.Warn(ctx).Str(log.PipelineIDField, pl.ID).Msg("pipeline was force stopped while it was being restarted, stopping the new run")
+		_ = s.stopForceful(ctx, rp)
+		return nil
 	}
 	s.logger.Info(ctx).Str(log.PipelineIDField, pl.ID).Msg("pipeline started")
 
